@@ -210,6 +210,16 @@ fn naming(case: &Value) -> Value {
         if rule == "event" {
             return json!(EventContext::new(&cfg).event_name_to_function(&name));
         }
+        if let Some(value) = rule.strip_prefix("default:") {
+            // the configured default_field_case / default_parameter_case, no serde attribute on the item
+            let mut c = GenerateConfig::default();
+            c.default_field_case = value.to_string();
+            c.default_parameter_case = value.to_string();
+            let a = FieldContext::new(&c).compute_field_name(&name, &None, &None);
+            let b = CommandContext::new(&c).compute_parameter_name(&name, &None, &None);
+            assert_eq!(a, b, "default field and parameter naming disagree");
+            return json!(a);
+        }
         if let Some(vr) = rule.strip_prefix("variant:") {
             // an enum variant as StructParser::parse_enum records it, through FieldContext::from_field_info
             let r = RenameRule::from_rename_all_str(vr).expect("rule");
@@ -427,6 +437,12 @@ fn oneshot(case_path: &str, result_path: &str) {
             cfg.verbose = case["verbose"].as_bool();
             cfg.visualize_deps = case["visualize_deps"].as_bool();
             cfg.include_private = case["include_private"].as_bool();
+            if let Some(v) = case["default_field_case"].as_str() {
+                cfg.default_field_case = v.to_string();
+            }
+            if let Some(v) = case["default_parameter_case"].as_str() {
+                cfg.default_parameter_case = v.to_string();
+            }
             if let Some(p) = case["exclude_patterns"].as_array() {
                 cfg.exclude_patterns = Some(p.iter().filter_map(|x| x.as_str().map(|s| s.to_string())).collect());
             }
